@@ -573,7 +573,7 @@ var clauseKeywords = map[string]bool{
 	"property": true, "trusted": true, "pure": true, "effect": true, "inline": true,
 	"requires": true, "ensures": true, "modifies": true,
 	"loop": true, "invariant": true, "decreases": true, "unordered": true,
-	"spec": true, "axiom": true, "lemma": true, "sort": true, "witness": true, "uses": true, "deterministic": true, "global": true, "global_assumed": true,
+	"spec": true, "axiom": true, "lemma": true, "sort": true, "witness": true, "uses": true, "ghost": true, "deterministic": true, "global": true, "global_assumed": true,
 }
 
 type logical struct {
@@ -777,6 +777,19 @@ func ParseLines(pkg, path string, lines []Line) (*File, error) {
 			}
 			f.Lemmas = append(f.Lemmas, lm)
 			curLemma = lm
+		case "ghost":
+			cur, curLoop, curLemma = nil, nil, nil
+			toks, err := lex(rest)
+			if err != nil {
+				return nil, fmt.Errorf("%s: %v", l.pos, err)
+			}
+			p := &parser{toks: toks, pos: l.pos}
+			n := p.next()
+			ty, err := p.typeExpr()
+			if err != nil {
+				return nil, err
+			}
+			f.Ghosts = append(f.Ghosts, &Ghost{Name: n.text, Type: ty, Pos: l.pos})
 		case "global", "global_assumed":
 			cur, curLoop, curLemma = nil, nil, nil
 			c, err := parseClause("global", rest, l.pos)
